@@ -30,6 +30,7 @@ class Recorder:
         self.seq = []        # global order of evaluator calls and of meta-events received by recorders:
                              # ('call', interp id) | ('meta', recorder id, meta value)
         self.ids = {}        # id(interpreter) -> small int
+        self.leaks = []      # events RETURNED by a probe block that sends nothing (events of another block surfacing there)
 
     def interp_id(self, interp):
         return self.ids.setdefault(id(interp), len(self.ids))
@@ -123,7 +124,10 @@ def make_recording_evaluator(rec):
                 if mode == 'eval':
                     PythonEvaluator._evaluate_code(self, '__probe__(active, time)', additional_context=ac)
                 else:
-                    PythonEvaluator._execute_code(self, '__probe__(active, time)', additional_context=ac)
+                    got = PythonEvaluator._execute_code(self, '__probe__(active, time)', additional_context=ac)
+                    if got:
+                        # the probe is an ordinary code block that sends nothing: whatever it "sent" was sent by another block
+                        rec.leaks.append(tuple(ev_value(e) for e in got))
             finally:
                 self._probing = False
             return seen
@@ -321,16 +325,29 @@ def meta_value(m):
         return ('Entered', d['state'])
     if n == 'transition processed' and set(d) == {'source', 'target', 'event'}:
         return ('Processed', d['source'], d['target'], ev_value(d['event']))
+    # a listener reads the parameters of a meta-event as attributes (event.w, event.time, ...): what it reads must be what was given
+    for k, v in d.items():
+        try:
+            seen = getattr(m, k)
+        except Exception as e:  # noqa
+            seen = ('unreadable', repr(e))
+        if seen is not v and seen != v:
+            return ('User', n, tuple((kk, val(vv)) for kk, vv in d.items()) + (('attribute ' + k + ' reads', val(seen)),))
     return ('User', n, tuple((k, val(v)) for k, v in d.items()))
 
 
 def chart_value(sc):
     """Statechart -> plain data (dict orders preserved)."""
     def kind(s):
-        if isinstance(s, ShallowHistoryState):
-            return 'KShallow'
+        # by the exact class (a class hierarchy rearranged inside the library must not change what the harness reads)
+        exact = {'ShallowHistoryState': 'KShallow', 'DeepHistoryState': 'KDeep', 'FinalState': 'KFinal',
+                 'OrthogonalState': 'KOrthogonal', 'CompoundState': 'KCompound', 'BasicState': 'KBasic'}.get(type(s).__name__)
+        if exact:
+            return exact
         if isinstance(s, DeepHistoryState):
             return 'KDeep'
+        if isinstance(s, ShallowHistoryState):
+            return 'KShallow'
         if isinstance(s, FinalState):
             return 'KFinal'
         if isinstance(s, OrthogonalState):
@@ -655,6 +672,7 @@ class Scenario:
         post = snap_interp(self.interp, self.rec)
         wpost = self.world()
         calls = self.rec.calls[n0:]
+        leaks, self.rec.leaks = list(self.rec.leaks), []
         # interleaving of the monitored interpreter's evaluator calls with the meta-events, as seen by the FIRST
         # listener when that is a recorder (it then receives every meta-event, also the one on which a later listener raises)
         seq = None
@@ -664,7 +682,7 @@ class Scenario:
             seq = [None if x[0] == 'call' else x[2] for x in self.rec.seq[q0:]
                    if (x[0] == 'call' and x[1] == 0) or (x[0] == 'meta' and x[1] == first)]
         return dict(op=op, pre=pre, wpre=wpre, out=out, post=post, wpost=wpost, calls=calls,
-                    selected=self.sel_holder.get('selected'), seq=seq,
+                    selected=self.sel_holder.get('selected'), seq=seq, leaks=leaks,
                     listener_times=sorted({x[3] for x in self.rec.seq[q0:] if x[0] == 'meta'}))
 
 
